@@ -5,7 +5,9 @@ package main
 import (
 	"context"
 	"fmt"
+	"github.com/hashicorp/yamux"
 	"io"
+	"net"
 	"os"
 	"os/exec"
 	"path/filepath"
@@ -308,6 +310,35 @@ func startTestServer(proto string) (*testServer, error) {
 	return &testServer{cancel, closeCh, rc}, nil
 }
 
+// dropHostConnection connects to the plugin the way a host does (net/rpc: yamux session with the control and the two
+// stdio streams; gRPC: a client connection and one health probe) and drops the connection without any shutdown request.
+func dropHostConnection(rc *plugin.ReattachConfig, proto string) {
+	conn, err := net.DialTimeout(rc.Addr.Network(), rc.Addr.String(), 2*time.Second)
+	if err != nil {
+		return
+	}
+	defer conn.Close()
+	if proto == "netrpc" {
+		cfg := yamux.DefaultConfig()
+		cfg.LogOutput = io.Discard
+		sess, err := yamux.Client(conn, cfg)
+		if err != nil {
+			return
+		}
+		for i := 0; i < 3; i++ {
+			if st, err := sess.Open(); err == nil {
+				defer st.Close()
+			}
+		}
+		time.Sleep(150 * time.Millisecond)
+		sess.Close()
+		return
+	}
+	// gRPC: the HTTP/2 preface and a settings frame are enough to be a connection that came and went
+	conn.Write([]byte("PRI * HTTP/2.0\r\n\r\nSM\r\n\r\n\x00\x00\x00\x04\x00\x00\x00\x00\x00"))
+	time.Sleep(150 * time.Millisecond)
+}
+
 func runC15(c *c15Case, idx int) (impl, pred string) {
 	work := os.Getenv("VERIF_WORK")
 	base := filepath.Join(work, fmt.Sprintf("c15-%d-%d", os.Getpid(), idx))
@@ -450,6 +481,24 @@ func runC15(c *c15Case, idx int) (impl, pred string) {
 						}
 					}
 				}
+			case "X":
+				// some other host's connection to the plugin comes and goes WITHOUT a shutdown request (that host crashed,
+				// a monitoring probe, a dropped client): the plugin must go on serving
+				dropHostConnection(rc, c.proto)
+				time.Sleep(300 * time.Millisecond)
+				if targetPid != 0 && c.mode != "dead" && !pidAlive(targetPid) && pred == "ok" {
+					pred = "FAIL:plugin-exited-when-a-host-connection-dropped"
+				}
+				if ts != nil {
+					select {
+					case <-ts.closeCh:
+						if pred == "ok" {
+							pred = "FAIL:test-server-stopped-when-a-host-connection-dropped"
+						}
+					default:
+					}
+				}
+				o = "x"
 			case "P":
 				if client.Protocol() == plugin.ProtocolInvalid {
 					o = "e"
@@ -591,6 +640,11 @@ func init() {
 		for _, proto := range []string{"netrpc", "grpc"} {
 			for _, ops := range seqs {
 				cases = append(cases, &c15Case{proto: proto, mode: "live", ops: ops})
+				if len(ops) == 2 {
+					// the same history with another host's connection dropping before it, and in the middle of it
+					cases = append(cases, &c15Case{proto: proto, mode: "live", ops: append([]string{"X"}, ops...)},
+						&c15Case{proto: proto, mode: "live", ops: []string{ops[0], "X", ops[1]}})
+				}
 				if len(ops) <= 2 {
 					cases = append(cases, &c15Case{proto: proto, mode: "dead", ops: ops})
 				}
@@ -612,6 +666,7 @@ func init() {
 			for _, ops := range lcSequences([]string{"S", "C", "K"}, 2) {
 				tcases = append(tcases, &c15Case{proto: proto, mode: "test", ops: ops})
 			}
+			tcases = append(tcases, &c15Case{proto: proto, mode: "test", ops: []string{"X", "S", "C"}}, &c15Case{proto: proto, mode: "test", ops: []string{"C", "X", "C"}})
 		}
 		for i, c := range tcases {
 			impl, pred := runC15(c, 10000+i)
